@@ -234,13 +234,13 @@ def run(prog, chk):
     chk.not_decided += ["byte identity itself", "behavioural differences between defcon and ufoLib2", "ordering of dict-typed UFO containers (treated as content)"]
     chk.assumptions += ["glyph-class literals and sets handed to fontTools as sets are order-neutral sinks (coverage / class tables are sorted by glyph id)",
                         "dict iteration order is insertion order (content), only set / frozenset iteration is hash-seed dependent"]
-    r081(prog, chk)
-    r082(prog, chk)
-    r083(prog, chk)
-    r084(prog, chk)
-    r085(prog, chk)
-    r086(prog, chk)
-    r087(prog, chk)
+    chk.guard(r081, prog, chk)
+    chk.guard(r082, prog, chk)
+    chk.guard(r083, prog, chk)
+    chk.guard(r084, prog, chk)
+    chk.guard(r085, prog, chk)
+    chk.guard(r086, prog, chk)
+    chk.guard(r087, prog, chk)
 
 
 # ----------------------------------------------------------------------------- R08.1
